@@ -87,10 +87,13 @@ bool operator==(const Packet& lhs, const Packet& rhs) noexcept
     if (lhs.getSegmentType() != rhs.getSegmentType())
         return false;
 
-    if (lhs.getPayloadLength() == rhs.getPayloadLength() && lhs.getPayloadLength() > 0)
+    // compare the real payload sizes: getPayloadLength() is the 16-bit wire length and wraps at 65536
+    const size_t lhsLength = lhs.payload ? lhs.payload->getLength() : 0;
+    const size_t rhsLength = rhs.payload ? rhs.payload->getLength() : 0;
+    if (lhsLength == rhsLength && lhsLength > 0)
         return lhs.getPayload() == rhs.getPayload();
     else
-        return lhs.getPayloadLength() == rhs.getPayloadLength();
+        return lhsLength == rhsLength;
 }
 
 bool operator!=(const Packet& lhs, const Packet& rhs) noexcept
